@@ -345,8 +345,11 @@ func (s *Subscription) AddMonitorItems(ctx context.Context, nodes ...Request) ([
 		request.MonitoringMode = node.MonitoringMode
 
 		if node.MonitoringParameters != nil {
-			request.RequestedParameters = node.MonitoringParameters
-			request.RequestedParameters.ClientHandle = handle
+			// copy the parameters: the caller may pass the same object in
+			// several requests and must not see its ClientHandle overwritten
+			params := *node.MonitoringParameters
+			params.ClientHandle = handle
+			request.RequestedParameters = &params
 		}
 		toAdd = append(toAdd, request)
 	}
@@ -484,11 +487,13 @@ func (s *Subscription) ModifyMonitorItems(ctx context.Context, nodes ...Request)
 				break
 			}
 
+			// copy the parameters (see AddMonitorItems)
+			params := *node.MonitoringParameters
+			params.ClientHandle = item.handle
 			request := &ua.MonitoredItemModifyRequest{
 				MonitoredItemID:     item.id,
-				RequestedParameters: node.MonitoringParameters,
+				RequestedParameters: &params,
 			}
-			request.RequestedParameters.ClientHandle = item.handle
 			toModify = append(toModify, request)
 			break
 		}
